@@ -167,6 +167,10 @@ def expected_for_section(built, sspec, w_in):
     """-> dict: data boundaries, per header-row (kind, boundaries), unsliced boundaries (classifier)"""
     shown, order = built.shown, built.colnames
     rel = sspec.get("col_rel_width")
+    if rel is not None and len(rel) == 1 and len(order) > 1:
+        # a single value is broadcast to every original column by the constructor; either reading
+        # (one value for the one displayed column / for all columns) gives equal displayed widths
+        rel = [rel[0]] * len(order)
     if rel is None:
         rel_shown = [1.0] * len(shown)
         rel_unsliced = [1.0] * len(order)
@@ -212,15 +216,16 @@ def eval_case(case: dict) -> dict:
     except Exception as e:
         klass = None
         if b.earlier is not None and isinstance(e, IndexError):
-            # narrow: the public col_rel_width field of a re-used component still has the earlier document's
-            # length, which is shorter than this document's column count
+            # narrow: the public col_rel_width field of at least one re-used component still has the earlier
+            # document's length, which is shorter than this document's column count (a 1-column body is re-broadcast
+            # by the constructor, its header is not)
             n_now, n_before = len(b.colnames), len(b.earlier.colnames)
             comps = []
             if case.get("reuse", "both") in ("body", "both"):
                 comps.append(b.doc.rtf_body)
             if case.get("reuse", "both") in ("header", "both"):
                 comps.extend(b.doc.rtf_column_header)
-            if n_before < n_now and comps and all(c.col_rel_width is not None and len(c.col_rel_width) == n_before for c in comps):
+            if n_before < n_now and any(c.col_rel_width is not None and len(c.col_rel_width) == n_before for c in comps):
                 klass = "reused-component-keeps-earlier-widths"
         return {"viol": [{"klass": klass, "sig": f"encode-raised-{type(e).__name__}", "detail": f"{type(e).__name__}: {e}"}],
                 "nt": False, "cnt": {"encode-raised": 1}}
